@@ -171,3 +171,13 @@ def spline_case(rng, order, d, n, ratio=None, t0=None, mode=None, with_grad=True
         c.gC, c.gT, k = upstream(rng, order, n, d, gkind)
         c.meta['gkind'] = k
     return c
+
+
+def from_desc(d):
+    """rebuild a spline case from its `describe()` form (replay files, /verif/corpus)"""
+    c = SplineCase(d['order'], d['dim'], d['N'], d['h'], d['P'], d['bc'], t0=d['t0'], mode=d['mode'], slot=d.get('slot', -1),
+                   qorder=d.get('qorder', 0), gC=d.get('gC'), gT=d.get('gT'), evals=d.get('evals', ()))
+    for k, v in d.items():
+        if k not in ('order', 'dim', 'N', 'h', 'P', 'bc', 't0', 'mode', 'slot', 'qorder', 'gC', 'gT', 'evals'):
+            c.meta[k] = v
+    return c
